@@ -39,10 +39,10 @@ def log_genotype_prior(genotype, unique_haplotypes, inbreeding=0, frequencies=No
         if frequencies is None:
             return ln_perms - ploidy * np.log(unique_haplotypes)
         else:
-            prod = 1
+            lprod = 0.0
             for i in range(ploidy):
-                prod *= frequencies[genotype[i]]
-            return ln_perms + np.log(prod)
+                lprod += np.log(frequencies[genotype[i]])
+            return ln_perms + lprod
     if frequencies is None:
         alpha_const = calculate_alphas(inbreeding, 1 / unique_haplotypes)
         sum_alphas = alpha_const * unique_haplotypes
